@@ -19,6 +19,7 @@ import (
 	"time"
 
 	"verif/harness/core"
+	"verif/harness/drive/zpool"
 )
 
 var Driver = core.Driver{ID: "C18", Level: "model_checking", Run: run, Replay: replay, SelfTest: selfTest}
@@ -155,7 +156,8 @@ func run(ctx *core.Ctx) error {
 	if err := freeRunning(ctx); err != nil {
 		return err
 	}
-	return nil
+	// package-level state: the zlib reader/writer pools (spec/conc/ZlibPool.tla)
+	return zpool.Run(ctx)
 }
 
 func concurrent(sc schedule) bool {
@@ -191,6 +193,9 @@ func replay(ctx *core.Ctx, raw json.RawMessage) error {
 	var sc schedule
 	if err := json.Unmarshal(raw, &sc); err != nil {
 		return core.Infra("replay: %v", err)
+	}
+	if handled, err := zpool.Replay(ctx, raw); handled {
+		return err
 	}
 	if sc.Graph == "" {
 		return replayFree(ctx, raw)
